@@ -5,7 +5,7 @@ import operator, math, struct, copy as _copy
 
 ID = 'C14'
 COQ_PROPS = ['Props/C14.v']
-COQ_IMPORTS = ['Prims', 'CaseLib', 'BitsCore', 'Mutators', 'ArrayM']
+COQ_IMPORTS = ['Prims', 'CaseLib', 'BitsCore', 'Mutators', 'ArrayM', 'ArrayOps', 'ArrayCases']
 RULE = ('programs of 1..14 list operations (len, index, slice with any step, item and slice assignment, deletion, append, extend, insert, pop, reverse, count, tolist, iteration, equals, copy, '
         'dtype change) and element-wise operators (arithmetic, shifts, bitwise, comparisons, in-place forms, between Arrays with promotion) on Arrays of uint/int of various widths, le/be/ne, hex, bin, oct, '
         'bool, float16/32/64, 8-bit floats, bytesN and struct codes, with and without trailing bits; a Python list + per-item encoder is the reference; a.tolist(), len, a.data.bin and trailing_bits '
@@ -77,6 +77,18 @@ def gen_cases(rng, tier):
         n = rng.randrange(0, 7)
         yield {'op': 'program', 'dtype': d, 'items': [rand_item(rng, d) for _ in range(n)], 'trail': '', 'lsb0': True,
                'steps': [gen_step(rng, d, n) for _ in range(rng.randrange(1, 8))], 'seed': rng.randrange(1 << 30)}
+    # element-wise operator programs on int items (each step is also evaluated on the loop models of ArrayOps.v): results at and over the limits of
+    # the item width, zero divisors, negative shifts, operands of other int dtypes (promotion), trailing bits (dropped by the pure forms)
+    for _ in range(N // 3):
+        d = rng.choice(['uint8', 'int8', 'uint5', 'int7', 'int16', 'uint16', 'uint3', 'int4', 'uint12'])
+        n = rng.randrange(0, 6)
+        def estep():
+            o = rng.choice(['scalar_op', 'scalar_op', 'inplace_op', 'array_op'])
+            if o == 'array_op': return {'op': o, 'f': rng.choice(['add', 'sub', 'mul', 'lt', 'eq']), 'd2': rng.choice(['uint8', 'int16', 'uint5', 'int7', 'int8', 'uint16']), 'same_len': rng.random() < 0.85}
+            f = rng.choice(['add', 'sub', 'mul', 'floordiv', 'mod', 'lshift', 'rshift', 'lt', 'eq', 'neg', 'abs', 'radd', 'rsub', 'rmul'] if o == 'scalar_op' else ['add', 'sub', 'mul', 'floordiv', 'mod', 'lshift', 'rshift'])
+            return {'op': o, 'f': f, 'x': rng.choice([0, 1, 2, 3, -1, -2, 7, 8, 127, 128, 255, 256, -128, -129, 300, rng.randrange(-40, 40)])}
+        yield {'op': 'program', 'dtype': d, 'items': [rand_item(rng, d) for _ in range(n)], 'trail': rand_bits(rng, rng.choice([0, 0, 1, 2])),
+               'steps': [estep() for _ in range(rng.randrange(1, 5))], 'seed': rng.randrange(1 << 30)}
     for _ in range(N):
         d = rng.choice(DTYPES)
         n = rng.randrange(0, 7)
@@ -414,8 +426,34 @@ def oracle_(c, obs):
 def nontrivial(c, obs): return c['op'] == 'program' and any(s['op'] in ('setitem', 'setslice', 'delitem', 'delslice', 'append', 'extend', 'insert', 'pop', 'reverse', 'inplace_op') for s in c['steps'])
 def classify(c, obs): return None
 
+def cdt(t):
+    """a Dtype of the library as the record ArrayOps.dt: name, kind of the return type, signedness, length (in units), scale as the tag"""
+    k = 'KFloat' if t.return_type is float else ('KInt' if t.return_type in (int, bool) else 'KOther')
+    sc = 0 if t.scale is None else int(t.scale)
+    return f'(mkdt "{t.name}" {k} {cbool(bool(t.is_signed))} {cz(t.length)} {cz(sc)})', (t.name, t.length, sc)
+
+def int_dt(dt):
+    """(width, signed) when str(dtype) is a plain big-endian uintN / intN"""
+    import re
+    m = re.fullmatch(r'(u?)int(\d+)', str(dt))
+    return (int(m.group(2)), m.group(1) == '') if m else None
+
+AOPS = {'add': 'AAdd', 'radd': 'AAdd', 'sub': 'ASub', 'mul': 'AMul', 'rmul': 'AMul', 'rsub': 'ARsub', 'floordiv': 'AFloordiv', 'mod': 'AMod', 'lshift': 'ALshift', 'rshift': 'ARshift'}
+
 def coq_check(c, obs):
-    """index / assignment / deletion / insert / append on the data bits, for dtypes whose item is w bits"""
+    """index / assignment / deletion / insert / append on the data bits, for dtypes whose item is w bits; the element-wise loops of ArrayOps.v
+    for int items (scalar, in-place and Array-Array operators, comparisons) and the promotion function"""
+    if c['op'] == 'promote':
+        from bitstring import Array, Dtype
+        t1 = Dtype(c['d1'], scale=c['s1']) if c.get('s1') is not None else Array(c['d1']).dtype
+        t2 = Dtype(c['d2'], scale=c['s2']) if c.get('s2') is not None else Array(c['d2']).dtype
+        (T1, i1), (T2, i2) = cdt(t1), cdt(t2)
+        if obs[0] == 'ok':
+            want = next((i for i, t in ((i1, t1), (i2, t2)) if str(t) == obs[1][0]), None)
+            if want is None: return 'false'                                            # "one of the two types gets returned"
+            return f'promo_is (promotetype {T1} {T2}) "{want[0]}" {cz(want[1])} {cz(want[2])}'
+        if obs[1] == 'ValueError' and promo_rule(c['d1'], c['d2'], c.get('s1'), c.get('s2')) is None: return f'promo_err (promotetype {T1} {T2}) ValueError'
+        return None
     if c['op'] != 'program' or c.get('lsb0'): return None         # the Array model is stated for msb0 data layout
     o = obs[1]
     if o['init'][0] != 'ok': return None
@@ -449,6 +487,43 @@ def coq_check(c, obs):
             terms.append(f"rbits_eqb (arr_append {wcur} {D} {cbits(after[2][len(data):])}) (Ok {cbits(after[2])})")
         elif op == 'append' and r[0] == 'err' and trail:
             terms.append(f"rbits_eqb (arr_append {wcur} {D} (repeat false {wcur}%nat)) (Err ValueError)")
+    # element-wise operators on int items, whatever the dtype has become by now
+    for st, (before, r, after) in zip(c['steps'], o['trace']):
+        items, n, data, trail, dt = before
+        wi = int_dt(dt)
+        if wi is None or r == ['ok', 'skip'] or (r[0] == 'err' and r[1] != 'ValueError'): continue
+        w, sg = wi; D = cbits(data); op = st['op']; S = cbool(sg)
+        if op in ('scalar_op', 'inplace_op'):
+            f, x = st['f'], st.get('x')
+            if f in ('neg', 'abs'): A = 'ANeg' if f == 'neg' else 'AAbs'
+            elif f in AOPS and isinstance(x, int) and not isinstance(x, bool) and abs(x) <= 1000: A = f'({AOPS[f]} {cz(x)})'
+            elif f in ('lt', 'eq') and op == 'scalar_op' and isinstance(x, int) and not isinstance(x, bool):
+                if r[0] == 'ok': terms.append(f"rbits_eqb (arr_scalar_cmp {w} {S} ({'CLt' if f == 'lt' else 'CEq'} {cz(x)}) {D}) (Ok {cbits(r[1][0][2])})")
+                continue
+            else: continue
+            if op == 'scalar_op':
+                terms.append(f"rbits_eqb (arr_scalar_op {w} {S} {A} {D}) " + (f"(Ok {cbits(r[1][0][2])})" if r[0] == 'ok' else "(Err ValueError)"))
+            elif f in IOPS:
+                terms.append(f"iop_is (arr_scalar_iop {w} {S} {A} {D}) {cbits(after[2])} " + ("(Ok tt)" if r[0] == 'ok' else "(Err ValueError)"))
+        elif op == 'array_op' and r[0] == 'err':
+            # a length mismatch or a result that does not fit: the operand is rebuilt here exactly as the runner builds it
+            if int_dt(st['d2']) is None: continue
+            from bitstring import Array
+            m = n if st['same_len'] else n + 1
+            other = Array(st['d2'], [(i % 3) for i in range(m)])
+            (T1, _), (T2, _) = cdt(Array(dt).dtype), cdt(other.dtype)
+            if st['f'] in ('lt', 'eq'): terms.append(f"rbits_eqb (arr_between_cmp {T1} {T2} {'BLt' if st['f'] == 'lt' else 'BEq'} {D} {cbits(other.data.bin)}) (Err ValueError)")
+            else: terms.append(f"between_err (arr_between_int {T1} {T2} {'B' + st['f'].capitalize()} {D} {cbits(other.data.bin)}) ValueError")
+        elif op == 'array_op' and r[0] == 'ok':
+            w2 = int_dt(r[1][1][4])
+            if w2 is None: continue
+            from bitstring import Array
+            (T1, _), (T2, _) = cdt(Array(dt).dtype), cdt(Array(r[1][1][4]).dtype)
+            D2 = cbits(r[1][1][2]); res_dt = int_dt(r[1][0][4])
+            if st['f'] in ('lt', 'eq'):
+                terms.append(f"rbits_eqb (arr_between_cmp {T1} {T2} {'BLt' if st['f'] == 'lt' else 'BEq'} {D} {D2}) (Ok {cbits(r[1][0][2])})")
+            elif res_dt is not None:
+                terms.append(f"between_is (arr_between_int {T1} {T2} {'B' + st['f'].capitalize()} {D} {D2}) \"{'int' if res_dt[1] else 'uint'}\" {res_dt[0]} {cbits(r[1][0][2])}")
     return ' && '.join('(' + t + ')' for t in terms) if terms else None
 
 def search(seeds, rng):
